@@ -230,13 +230,20 @@ func GenHistory(r *rand.Rand, o HistOpts) History {
 				h.Classes["multi-value-call"] = true
 			}
 			if o.FailOps && r.IntN(7) == 0 {
+				valid := op.Val
 				switch api {
 				case "json", "sjson":
-					if r.IntN(2) == 0 {
+					switch r.IntN(3) {
+					case 0:
 						s, _ := vkit.InvalidJSON(r)
 						op.Val = Val{Kind: "json", S: s, Form: "string"}
 						op.Fail = "invalid"
-					} else {
+					case 1:
+						// a Go value whose own marshaller fails
+						op.Val = Val{Kind: "marshal-error", S: "sensor offline"}
+						op.Fail = "invalid"
+						h.Classes["go-value-whose-marshaller-fails"] = true
+					default:
 						op.Fail = "matcher"
 					}
 					h.Classes["failing-call-midway"] = true
@@ -247,6 +254,13 @@ func GenHistory(r *rand.Rand, o HistOpts) History {
 						op.Fail = "invalid"
 						h.Classes["failing-call-midway"] = true
 					}
+				}
+				if op.Fail != "" && r.IntN(2) == 0 {
+					// rejected in one execution only (a flaky input): the other executions of the
+					// test make the same call with a valid value
+					op.FailOnlyExec = 1 + r.IntN(2)
+					op.AltVal = &valid
+					h.Classes["call-rejected-in-one-execution-only"] = true
 				}
 			}
 			apisSeen[api] = true
@@ -267,6 +281,35 @@ func GenHistory(r *rand.Rand, o HistOpts) History {
 	if nt > 1 && r.IntN(2) == 0 {
 		h.Interleave = true
 		h.Classes["interleaved-tests"] = true
+	}
+	if r.IntN(10) == 0 {
+		// a test that takes standalone snapshots (named after the test: T_1.snap, T_2.snap ...)
+		// and keeps its entries in a file called `T_%d` - the standalone name pattern, literally
+		for i := range h.Tests {
+			tp := &h.Tests[i]
+			sa, ent := false, ""
+			for _, op := range tp.Ops {
+				if op.standalone() && op.Ext == "" {
+					sa = true
+				} else if !op.standalone() && ent == "" {
+					ent = op.File
+				}
+			}
+			if sa && ent != "" {
+				lit := strings.ReplaceAll(tp.Name, "/", "_") + "_%d"
+				for j := range tp.Ops {
+					if !tp.Ops[j].standalone() && tp.Ops[j].File == ent {
+						tp.Ops[j].File = lit
+					}
+				}
+				if tp.Execs < 2 {
+					tp.Execs = 2
+				}
+				h.Classes["entry-file-named-like-the-standalone-pattern"] = true
+				h.Classes["repeated-execution"] = true
+				break
+			}
+		}
 	}
 	if o.Skips {
 		for i := range h.Tests {
@@ -343,8 +386,11 @@ func (s *Sess) RunProcessN(r *rand.Rand, h *History, m vkit.Mode, noColor bool, 
 	}
 	stepOne := func(e *exec) bool {
 		op := e.plan.Ops[e.next]
-		if op.Fail == "matcher" && op.FailOnlyExec >= 1 && op.FailOnlyExec != e.idx {
+		if op.Fail != "" && op.FailOnlyExec >= 1 && op.FailOnlyExec != e.idx {
 			op.Fail = ""
+			if op.AltVal != nil {
+				op.Val = *op.AltVal
+			}
 		}
 		if mutate != nil {
 			mutate(e.plan, e.next, &op)
